@@ -339,6 +339,20 @@ class Effects(object):
                 return [('external', 'builtin.' + name, {'recv': recv})]
             if rt in ('ndarray', 'list', 'dict', 'tuple'):
                 return [('external', rt + '.' + name, {'recv': recv})]
+            # `self` inside a method of an abstract base: the receiver is an instance of one of its subclasses - their members of that name, and nothing else
+            if recv[0] == 'param' and fi.cls is not None and fi.params and recv[1] == fi.params[0] and not any('staticmethod' in ast.unparse(d) or 'classmethod' in ast.unparse(d) for d in fi.decorators):
+                out = []
+                for ci in P.classes.values():
+                    if ci.module.name.startswith('dimarray.io') or ci.module.name.startswith('dimarray.convert'):
+                        continue
+                    if fi.cls in ci.mro:
+                        m = P.lookup(ci, name)
+                        if m is not None:
+                            for tgt in self._member_targets(m, recv):
+                                if tgt not in out:
+                                    out.append(tgt)
+                if out:
+                    return out
             # unknown receiver type: class-hierarchy analysis by member name + external fallback
             out = []
             for ci in P.classes.values():
